@@ -1,6 +1,8 @@
 import IgrisModel.C02.Lemmas
 import IgrisModel.C02.Bisect
 import IgrisModel.C02.Flat
+import IgrisModel.C02.FlatVecLemmas
+import IgrisModel.C02.ExcLemmas
 /-!
   C02 — property theorems.
 
@@ -296,7 +298,11 @@ theorem run_refines_from (portable : Bool) {R : Nat} (ops : List Op) {s : St} {f
     std::upper_bound bisection is part of the model and proved equal to `ubSpec`) — on any number of vector objects runs on the
     igris code (both copies) without a fault, returns exactly what std::vector returns (positions,
     comparison results = list equality / lexicographic order, at() throwing exactly when std's does) and
-    leaves every vector with std::vector's size and element sequence. -/
+    leaves every vector with std::vector's size and element sequence.
+    ONE EXCEPTION, by design of the reference: `Op.eraseTo` (igris' one-argument `erase(iterator newend)`) is
+    specified as TRUNCATION (`take k`), which is what the code does and NOT what std::vector::erase(pos) does —
+    finding C02-erase-pos; the comparison with std's erase(pos) is `erase_iterator_partial` /
+    `erase_iterator_truncates` / `erase_iterator_witness` below. -/
 theorem vector_refines_list (portable : Bool) (R : Nat) (ops : List Op)
     (hR : ∀ op ∈ ops, ∀ r ∈ op.regs, r < R)
     {f' : Nat → List Val} {rets : List Ret} (hs : runSpec (fun _ => []) ops = some (f', rets)) :
@@ -355,6 +361,47 @@ theorem ledger_balance (portable : Bool) (R : Nat) (ops : List Op)
     std::vector::erase(pos) removes the single element at `k`. -/
 theorem erase_pos_witness : ([1, 2, 3] : List Val).take 0 ≠ ([1, 2, 3] : List Val).eraseIdx 0 := by decide
 
+/-- FINDING C02-erase-pos on the MODEL.  The full statement — "`erase(pos)` removes exactly the element at
+    `pos`, like std::vector::erase(pos)":
+      `Rep v xs → k < xs.length → ∃ v' l', eraseTo v k l = some (v', l') ∧ Rep v' (xs.eraseIdx k)`
+    — is FALSE for the code (witness below): igris' `erase(iterator newend)` truncates.  What holds is the
+    partial statement: the two agree exactly when `pos` is the LAST element. -/
+theorem erase_iterator_partial {v : Vec} {xs : List Val} (h : Rep v xs) {k : Nat} (hk : k + 1 = xs.length) (l : Ledger) :
+    ∃ v' l', eraseTo v k l = some (v', l') ∧ Rep v' (xs.eraseIdx k) := by
+  obtain ⟨v', l', h1, g⟩ := eraseTo_good h (show k ≤ xs.length by omega) l
+  refine ⟨v', l', h1, ?_⟩
+  have e : xs.eraseIdx k = xs.take k := by
+    rw [List.eraseIdx_eq_take_drop_succ, List.drop_eq_nil_of_le (by omega), List.append_nil]
+  rw [e]; exact g.rep
+
+example : ∃ v xs k, Rep v xs ∧ k + 1 = xs.length := ⟨vecOf 3 [1, 2, 3], [1, 2, 3], 2, Rep.mk (by decide), rfl⟩
+
+/-- … and for every other valid position the igris code (without a fault) leaves `xs.take k`, which is NOT
+    std::vector's `xs.eraseIdx k`: the elements behind `pos` are lost -/
+theorem erase_iterator_truncates {v : Vec} {xs : List Val} (h : Rep v xs) {k : Nat} (hk : k + 1 < xs.length) (l : Ledger) :
+    ∃ v' l', eraseTo v k l = some (v', l') ∧ Rep v' (xs.take k) ∧ xs.take k ≠ xs.eraseIdx k := by
+  obtain ⟨v', l', h1, g⟩ := eraseTo_good h (show k ≤ xs.length by omega) l
+  refine ⟨v', l', h1, g.rep, ?_⟩
+  intro e
+  have := congrArg List.length e
+  rw [List.length_take, List.length_eraseIdx] at this
+  split at this <;> omega
+
+/-- the witness on the model: `v = {1,2,3}; v.erase(v.begin());` — the model (= the code) runs it without a
+    fault and leaves the EMPTY vector, std::vector leaves {2,3} -/
+theorem erase_iterator_witness :
+    ((runOut false St.init [.listCtor 0 [1, 2, 3], .eraseTo 0 0]).bind fun p => contents (p.1.regs 0)) = some [] ∧
+    ([1, 2, 3] : List Val).eraseIdx 0 = [2, 3] := by decide
+
+/-- VALUE-INITIALISATION.  `resize(n)` (and `vector(n)`, which calls it) appends elements with the value 0 — like
+    std::vector — whatever the slot memory held before: the slots behind `size` are `raw` in a represented
+    vector, i.e. memory of arbitrary contents (never written, left behind by a destroyed element after a
+    shrink, or part of a recycled block), and the result holds `live 0` there. -/
+theorem resize_value_initialises {v : Vec} {xs : List Val} (h : Rep v xs) (n : Nat) (l : Ledger) :
+    ∃ v' l', resize v n l = some (v', l') ∧ Rep v' (xs.take n ++ List.replicate (n - xs.length) 0) := by
+  obtain ⟨v', l', h1, g⟩ := resize_good h n l
+  exact ⟨v', l', h1, g.rep⟩
+
 /-- the slot discipline catches what the unrepaired insert did: assigning to the unconstructed slot at
     the old end is a fault of the model -/
 theorem assign_to_raw_faults : assign (Buf.fresh 2) 1 7 = none := by
@@ -381,6 +428,15 @@ def OrigFaults (o : Orig) (ops : List Op) : Prop :=
   (runSpec (fun _ => []) ops).isSome = true ∧ (runFixed St.init ops).isSome = true ∧ (runOrig o St.init ops).isNone = true
 
 instance (o : Orig) (ops : List Op) : Decidable (OrigFaults o ops) := by unfold OrigFaults; infer_instance
+
+/-- the seeded change C02-resize-default-init (`new (ptr) T` instead of `new (ptr) T()`) on the model: the
+    appended element exists but has an indeterminate value; `v.resize(1); v[0]` — accepted by std::vector, run by
+    the code — reads it: fault.  So the refinement theorem is false for that variant: the catch does not rest on
+    the oracle alone. -/
+theorem resize_default_init_witness :
+    OrigFaults .resizeDefault [.resize 0 1, .index 0 0] ∧
+    OrigFaults .resizeDefault [.emplaceBack 0 (.val 7), .popBack 0, .resize 0 1, .eq 0 0] ∧
+    OrigFaults .resizeDefault [.sizeCtor 1 2, .iter 1] := by decide
 
 /-- 37ab9b2 (copy assignment allocated `m_size` = 0 slots and constructed `other.size()` elements behind the
     block): `a = {4,5}; b = a;` constructs outside the allocation -/
@@ -487,7 +543,9 @@ example : Sorted ltInt (keysOf [(1, 10), (4, 40)]) := by decide
   requires; a linear order is not needed: "smaller last digit" makes 11 and 21 one key).  Two keys are the
   same key when neither is before the other.  std::map = a function from keys to the stored entry with the
   same key (`mapSpecNext` / `mapRetOk` in Flat.lean), std::set = a function from keys to the stored element
-  with the same key (`setSpecNext` / `setRetOk`).  The driver / harness instantiate std::less<int>,
+  with the same key (`setSpecNext` / `setRetOk`).  These theorems are about the element LISTS of the storage; that
+  the storage — an igris::vector in the compat build — behaves like that list, without a lifetime fault, is composed
+  formally in `flat_set_over_vector_refines` / `flat_map_over_vector_refines` further down.  The driver / harness instantiate std::less<int>,
   std::greater<int>, "smaller last digit" and std::greater<std::string> on the decimal text. -/
 
 /-- the hypothesis `StrictWeak lt` is satisfiable, also by an order that is not linear -/
@@ -538,13 +596,13 @@ theorem flat_map_keys_unique {lt : Int → Int → Bool} (h : StrictWeak lt) (in
     Distinct lt (keysOf ((FMap.ofList lt init {}).run lt ops).1.st) ∧
     ((FMap.ofList lt init {}).run lt ops).1.count lt k ≤ 1 := by
   have hm := (flat_map_refines h init ops).2
-  refine ⟨hm.uniq, ?_⟩
-  rw [FMap.count, count_eq h k _ hm.uniq]
+  refine ⟨hm.uniq h, ?_⟩
+  rw [FMap.count, count_eq h k _ (hm.uniq h)]
   split <;> omega
 
-/-- flat_map::insert keeps a storage that is strictly increasing by key strictly increasing (a map filled by
-    `insert` alone therefore iterates in std::map's order; operator[] / emplace append at the end and do
-    not — iteration order is not part of C02) -/
+/-- flat_map::insert keeps a storage that is strictly increasing by key strictly increasing (since the fix
+    'flat_map iterates in key order' operator[] / emplace / the initializer-list constructor insert at the same
+    `std::upper_bound` position, see `flat_map_iterates_in_key_order`) -/
 theorem flat_map_insert_keeps_sorted {lt : Int → Int → Bool} (h : StrictWeak lt) (m : FMap) (k v : Int)
     (hs : Sorted lt (keysOf m.st)) : Sorted lt (keysOf (m.insert lt k v).1.st) := by
   simp only [FMap.insert, findEntry_eq]
@@ -561,6 +619,41 @@ theorem flat_map_insert_keeps_sorted {lt : Int → Int → Bool} (h : StrictWeak
     exact (lookupBy_none_iff (·.1) k m.st).mp hf p hp
 
 example : Sorted ltInt (keysOf (FMap.ofList ltInt [(1, 10), (4, 40)] {}).st) := by decide
+
+/-- ITERATION ORDER (flat_map vs std::map).  In every reachable state — any initializer list, any history of
+    operator[] (read / write), insert, emplace, clear, re-initialisation and the read-only operations — the
+    storage is strictly increasing by key under the comparator, so `for (it = begin(); it != end(); ++it)` visits
+    the entries in std::map's order; the `iter` answer of `flat_map_refines` is exactly this list. -/
+theorem flat_map_iterates_in_key_order {lt : Int → Int → Bool} (h : StrictWeak lt) (init : List (Int × Int)) (ops : List MOp) :
+    Sorted lt (keysOf ((FMap.ofList lt init {}).run lt ops).1.st) ∧
+    ∀ p, p ∈ ((FMap.ofList lt init {}).run lt ops).1.st ↔
+      mapSpecRun lt (fun k => entry lt k init) ops p.1 = some p := by
+  have hm := (flat_map_refines h init ops).2
+  exact ⟨hm.sorted, fun p => by rw [hm.val]; exact entry_self h hm.sorted⟩
+
+example : ((FMap.ofList ltInt [(7, 1), (3, 2)] {}).run ltInt [.assign 5 50, .emplace 1 9, .index 4, .iter]).2.getLast? =
+    some (.entries [(1, 9), (3, 2), (4, 0), (5, 50), (7, 1)]) := by decide
+
+/-- before the fix operator[] / emplace / the initializer list appended at the end: `m[5] = 50; m[2] = 20;`
+    iterated 5, 2 (std::map: 2, 5), and `operator==` (comparison of the storage vectors) called two maps with the
+    same entries different when they were filled in a different order -/
+theorem flat_map_order_orig_witness :
+    (FMap.runOrig ltInt {} [.assign 5 50, .assign 2 20, .iter]).2 = [.unit, .unit, .entries [(5, 50), (2, 20)]] ∧
+    (FMap.run ltInt {} [.assign 5 50, .assign 2 20, .iter]).2 = [.unit, .unit, .entries [(2, 20), (5, 50)]] ∧
+    (FMap.runOrig ltInt {} [.assign 5 50, .assign 2 20]).1.eqStorage (FMap.runOrig ltInt {} [.assign 2 20, .assign 5 50]).1 = false ∧
+    (FMap.run ltInt {} [.assign 5 50, .assign 2 20]).1.eqStorage (FMap.run ltInt {} [.assign 2 20, .assign 5 50]).1 = true := by
+  decide
+
+/-- `flat_map::operator==` (it compares the storage vectors) is std::map's `==` on maps in the invariant: the
+    storages are equal exactly when both maps hold the same entry for every key — whatever the histories that
+    built them (std::map's == compares the entry sequences in key order, which are the storages) -/
+theorem flat_map_eq_is_map_eq {lt : Int → Int → Bool} (h : StrictWeak lt) {m1 m2 : FMap} {f1 f2 : Int → Option (Int × Int)}
+    (h1 : MRep lt m1 f1) (h2 : MRep lt m2 f2) : m1.eqStorage m2 = true ↔ f1 = f2 := by
+  simp only [FMap.eqStorage, beq_iff_eq]
+  exact storage_eq_iff h h1 h2
+
+example : MRep ltInt (FMap.run ltInt {} [.assign 5 50, .assign 2 20]).1 (mapSpecRun ltInt (fun _ => none) [.assign 5 50, .assign 2 20]) :=
+  (flat_map_refines_from strictWeak_ltInt MRep.empty _).2
 
 /-- before the fix `flat_map{{1,10},{1,20}}.count(1)` was 2 -/
 theorem flat_map_init_dup_orig_witness : (FMap.ofListOrig [(1, 10), (1, 20)]).count ltInt 1 = 2 := by decide
@@ -623,5 +716,133 @@ theorem flat_set_enumeration_unique {lt : Int → Int → Bool} (h : StrictWeak 
     (ha : Sorted lt a) (hb : Sorted lt b) (hab : ∀ j, j ∈ a ↔ j ∈ b) : a = b := sorted_enum_unique h a b ha hb hab
 
 example : Sorted ltInt [2, 5, 9] := by decide
+
+/-! ### flat_set / flat_map OVER THE VECTOR (the storage `_vec` / `storage` is an igris::vector in the compat build)
+
+  `VSet` / `VMap` (FlatVec.lean) are the two containers written on top of the slot model of igris::vector: the
+  bisections and the `find_if` / `count_if` loops read the slots of the block (`rd`: a read of memory that holds
+  no readable object is a fault), a new entry goes in through the modelled `vector::insert(pos, value)`
+  (`emplace`), `clear` / the destruction of the old storage are the modelled member functions.  A `std::pair`
+  element is stored as its code under an arbitrary `Coding` with `dec ∘ enc = id` (`Coding.exists_ok`).  The
+  simulation lemmas (`vset_run_simulates`, `vmap_run_simulates`) compose the list-level refinement theorems with
+  the vector theorems: the statements below are about the containers on the real storage model. -/
+
+/-- COMPOSITION, flat_set.  For every strict weak order and every history from the empty set, flat_set running
+    on the slot model of igris::vector never faults (no read of an unconstructed / moved-from element, no access
+    outside the block, no construction over an object …), answers exactly what std::set answers (`SetHist`),
+    its storage vector represents the strictly increasing list of std::set's elements, and the ledger is
+    balanced: constructed − destroyed element objects = number of elements, allocated − freed blocks = 1 if the
+    vector holds a block. -/
+theorem flat_set_over_vector_refines {lt : Int → Int → Bool} (h : StrictWeak lt) (ops : List SOp) :
+    ∃ s' l' rets, VSet.run lt {} {} ops = some (s', l', rets) ∧
+      SetHist lt (fun _ => none) ops rets ∧
+      ∃ xs, Rep s'.v xs ∧ SRep lt ⟨xs⟩ (setSpecRun lt (fun _ => none) ops) ∧
+        l'.net = xs.length ∧ l'.blocks = held s'.v := by
+  obtain ⟨s', l', hrun, g⟩ := vset_run_simulates lt (s := {}) (xs := []) Rep.nil {} ops
+  obtain ⟨a, b⟩ := flat_set_refines h ops
+  refine ⟨s', l', _, hrun, a, _, g.rep, b, ?_, ?_⟩
+  · have := g.net; simp [Ledger.net] at this ⊢; omega
+  · have := g.blk; simp [Ledger.blocks, held] at this ⊢; omega
+
+/-- COMPOSITION, flat_map.  The same for flat_map over a vector of (coded) pairs, for every initializer list and
+    every history of operator[] (read / write / const), insert, emplace, find, count, at, size, clear,
+    re-initialisation and iteration: no fault of the slot model, std::map's answers, the storage vector
+    represents the entries in increasing key order, ledger balanced. -/
+theorem flat_map_over_vector_refines {lt : Int → Int → Bool} (h : StrictWeak lt) (c : Coding) (hc : c.ok)
+    (init : List (Int × Int)) (ops : List MOp) :
+    ∃ m' l' rets, VMap.run c lt {} {} (.init init :: ops) = some (m', l', .unit :: rets) ∧
+      MapHist lt (fun k => entry lt k init) ops rets ∧
+      ∃ xs, Rep m'.v (xs.map c.enc) ∧ MRep lt ⟨xs⟩ (mapSpecRun lt (fun k => entry lt k init) ops) ∧
+        l'.net = xs.length ∧ l'.blocks = held m'.v := by
+  obtain ⟨m', l', hrun, g⟩ := vmap_run_simulates c hc lt (m := {}) (xs := []) Rep.nil {} (.init init :: ops)
+  obtain ⟨a, b⟩ := flat_map_refines h init ops
+  have e1 : ((⟨[]⟩ : FMap).run lt (.init init :: ops)).2 = .unit :: ((FMap.ofList lt init {}).run lt ops).2 := by
+    simp [FMap.run, FMap.step]
+  have e2 : ((⟨[]⟩ : FMap).run lt (.init init :: ops)).1 = ((FMap.ofList lt init {}).run lt ops).1 := by
+    simp [FMap.run, FMap.step]
+  rw [e1] at hrun
+  rw [e2] at g
+  refine ⟨m', l', _, hrun, a, _, g.rep, b, ?_, ?_⟩
+  · have := g.net; simp [Ledger.net] at this ⊢; omega
+  · have := g.blk; simp [Ledger.blocks, held] at this ⊢; omega
+
+example : ∃ c : Coding, c.ok := Coding.exists_ok
+
+/-! ### exceptions thrown by element operations (Exc.lean)
+
+  The element operations that may throw are default / value / copy construction and copy assignment (moves and
+  the destructor are `noexcept`, as std::vector itself needs for its strong guarantee).  `stepX portable s fz op`
+  is the member function with the fuse `fz`: `some k` = the k-th throwing-capable element operation it executes
+  throws.  `throwPoints f op` is the number of such operations (the fuse fires iff `k < throwPoints f op`),
+  `specThrow f k op` the contents afterwards.  The theorems are about the code after the fixes 93cf379 (copy
+  assignment), 04aed91 (constructors), 6f9cb41 (resize), 54e3cd5 (range insert); the unrepaired bodies are
+  shown as VIOLATIONs by the check (corpus `exc_*.ops`). -/
+
+theorem opRegs_eq (op : Op) : opRegs op = op.regs := by cases op <;> rfl
+
+/-- no fuse: the exception-aware model IS the model of the other theorems -/
+theorem no_fuse_is_step (portable : Bool) (s : St) (op : Op) :
+    stepX portable s none op = Out.ofOption (step portable s op) := stepX_none portable s op
+
+/-- THE FUSE IS NOT REACHED (it is larger than the number of throwing-capable operations the call executes):
+    the operation completes, returns std::vector's return value and leaves std::vector's contents -/
+theorem exception_not_fired (portable : Bool) {R : Nat} {s : St} {f : Nat → List Val} (hI : SInv R s f) (op : Op)
+    (hR : ∀ r ∈ op.regs, r < R) {f' : Nat → List Val} {ret : Ret} (hs : specStep f op = some (f', ret))
+    (fz : Option Nat) (hf : ∀ k, fz = some k → throwPoints f op ≤ k) :
+    ∃ s', stepX portable s fz op = .ok (s', ret) ∧ SInv R s' f' :=
+  stepX_not_fired portable
+    (fun {_ _} hI op hR {_ _} hs => step_refines portable hI op (by rw [← opRegs_eq]; exact hR) hs)
+    hI op (by rw [opRegs_eq]; exact hR) hs fz hf
+
+/-- BASIC GUARANTEE for every member function, STRONG GUARANTEE where std::vector gives it.  Whatever
+    throwing-capable element operation of the call throws (`k < throwPoints f op`), the member function is left by
+    the exception WITHOUT A FAULT of the slot model (no construction over an object, no destruction / assignment /
+    read of memory that holds no object, nothing outside the block) and the state satisfies the full invariant
+    again: every vector has size ≤ capacity = block size, exactly the slots below size hold constructed, readable
+    (not moved-from) elements, every slot behind is unconstructed; constructed − destroyed objects = Σ sizes
+    (nothing leaked, nothing destroyed twice), allocated − freed blocks = vectors holding a block.  The contents
+    are `specThrow f k op`: UNCHANGED for push_back / emplace_back / insert(pos, value) / emplace / insert_sorted
+    (also with an argument aliasing an element, also at capacity: the reallocation happens after the only
+    throwing operation) and resize — the strong guarantee; NO OBJECT for the constructors (the old object of the
+    register was destroyed before, the new one never came to exist: no leak); the `k` copies made for copy
+    assignment; the elements in front of `pos` followed by the `k` copies made for insert(pos, first, last). -/
+theorem exception_safety (portable : Bool) {R : Nat} {s : St} {f : Nat → List Val} (hI : SInv R s f) (op : Op)
+    (hR : ∀ r ∈ op.regs, r < R) {f' : Nat → List Val} {ret : Ret} (hs : specStep f op = some (f', ret))
+    {k : Nat} (hk : k < throwPoints f op) :
+    ∃ s', stepX portable s (some k) op = .threw (s', .throw) ∧ SInv R s' (specThrow f k op) :=
+  stepX_fired portable hI op (by rw [opRegs_eq]; exact hR) hs hk
+
+/-- the strong guarantee spelled out: for these operations `specThrow` is the identity -/
+theorem strong_guarantee_ops (f : Nat → List Val) (k : Nat) (op : Op)
+    (h : (∃ r a, op = .emplaceBack r a) ∨ (∃ r p a, op = .emplace r p a) ∨ (∃ r x, op = .insertSorted r x) ∨
+      (∃ r n, op = .resize r n)) : specThrow f k op = f := by
+  rcases h with ⟨r, a, rfl⟩ | ⟨r, p, a, rfl⟩ | ⟨r, x, rfl⟩ | ⟨r, n, rfl⟩ <;> rfl
+
+example : ∃ (s : St) (f : Nat → List Val) (f' : Nat → List Val) (ret : Ret), SInv 1 s f ∧
+    specStep f (.listCtor 0 [1, 2, 3]) = some (f', ret) ∧ 1 < throwPoints f (.listCtor 0 [1, 2, 3]) :=
+  ⟨St.init, fun _ => [], _, _, SInv.init 1, rfl, by decide⟩
+
+/-- HISTORIES WITH EXCEPTIONS.  Any history std::vector accepts, each operation with its own fuse (the caller
+    catches the exception and goes on using the vectors): no fault anywhere, every intermediate state satisfies the
+    invariant with the contents `runSpecX` predicts — the vectors stay usable — … -/
+theorem exception_histories_safe (portable : Bool) {R : Nat} (ops : List (Op × Option Nat))
+    (hR : ∀ p ∈ ops, ∀ r ∈ p.1.regs, r < R) {f' : Nat → List Val} (hs : runSpecX (fun _ => []) ops = some f') :
+    ∃ s', runX portable St.init ops = some s' ∧ SInv R s' f' :=
+  runX_safe portable
+    (fun {_ _} hI op hR {_ _} hs => step_refines portable hI op (by rw [← opRegs_eq]; exact hR) hs)
+    ops (SInv.init R) (by intro p hp; rw [opRegs_eq]; exact hR p hp) hs
+
+/-- … and destructible: after the destructors every element object ever constructed has been destroyed exactly
+    once and every block freed, WHATEVER threw on the way (no leak) -/
+theorem exception_no_leak (portable : Bool) (R : Nat) (ops : List (Op × Option Nat))
+    (hR : ∀ p ∈ ops, ∀ r ∈ p.1.regs, r < R) {f' : Nat → List Val} (hs : runSpecX (fun _ => []) ops = some f') :
+    ∃ s' s'', runX portable St.init ops = some s' ∧ destroyAll s' R = some s'' ∧
+      s''.led.made = s''.led.dtor ∧ s''.led.alloc = s''.led.dealloc ∧ ∀ r, r < R → s''.regs r = Vec.empty :=
+  runX_no_leak portable R
+    (fun {_ _} hI op hR {_ _} hs => step_refines portable hI op (by rw [← opRegs_eq]; exact hR) hs)
+    ops (by intro p hp; rw [opRegs_eq]; exact hR p hp) hs
+
+example : (runSpecX (fun _ => []) [(.listCtor 0 [1, 2, 3], none), (.insertRange 0 1 (.ext [7, 8, 9]), some 1),
+    (.emplaceBack 0 (.own 0), some 0), (.copyAssign 1 0, some 1), (.resize 1 4, some 2)]).isSome = true := by decide
 
 end Igris.C02
